@@ -39,7 +39,9 @@ EX = [
     ">>> undefined_name  # doctest: +SKIP\n42",
     ">>> a = 1; b = 2\n>>> a + b\n3",
     ">>> 'x' * 3\n'xxx'",
-    ">>> import sys; sys.stdout.write('no newline'); 7\nno newline7",
+    ">>> import sys; _ = sys.stdout.write('no newline'); 7\nno newline7",
+    ">>> def g():\n...     import sys\n...     sys.stdout.write('ab')\n...     return 2\n>>> g()\nab2",
+    "    >>> 2 + 2\n    4",
 ]
 SEP = ['\n', '\n\n', '\n\nSome prose between the examples.\n\n']
 BOUNDS = {'quick': 'repl_rule: |stdout| <= 2, |repr| <= 2 (any ASCII); differential_real: 2 examples from a menu of %d x 3 separators' % len(EX),
@@ -91,6 +93,9 @@ class Rule(Harness):
             want = self.o[:-1]
         # a want is a non-empty block of non-blank-leading lines (the standard parser ends it at a blank line)
         ex.assume(z3.Not(zbool(SymStr.of(want).strip() == '')))
+        # a standard want starts with a non-blank character (it begins on the line after the example)
+        from sea.symstr import _isws
+        ex.assume(z3.Not(_isws(SymStr.of(want).at(0))))
         src = 'v = 1 #0#'
         p = m['doctest_part'].DoctestPart([src], want_lines=[want], line_offset=0, orig_lines=['>>> ' + src], directives=[])
         if hasval:
@@ -166,6 +171,10 @@ class Diff(Harness):
         es = [int(SymInt(v)) for v in self.e]
         ss = [int(SymInt(v)) for v in self.s]
         text = self.text(es, ss)
+        if 'K-C20-REINDENT' in self.job.get('exclude', []):
+            # known finding: an example that directly follows want-less source at a deeper indentation
+            if any(es[i] == 17 - 1 and ss[i] == 0 and es[i - 1] == 0 for i in range(1, len(es))):
+                return {'excluded_known_class': z3.BoolVal(True)}
         try:
             (tries, fails), xs = run_both(text)
         except Exception as e:
@@ -214,6 +223,16 @@ def replay(job, cex):
         return {'reproduced': False, 'detail': 'could not run both engines: %s: %s' % (type(e).__name__, e)}
     std_ok = tries > 0 and fails == 0
     x_ok = bool(xs) and all(x['passed'] or x['skipped'] for x in xs) and any(x['passed'] for x in xs)
-    kind = 'print+value' if ((cex['harness'] == 'rule' and cex['has_value'] and cex['stdout']) or (cex['harness'] == 'diff' and (3 in cex['examples'] or 14 in cex['examples']))) else 'other'
+    import re as _re
+    reind = False
+    ls = text.split('\n')
+    for a, b in zip(ls, ls[1:]):
+        ma, mb = _re.match(r'^(\s*)(>>>|\.\.\.)( |$)', a), _re.match(r'^(\s*)>>>( |$)', b)
+        if ma and mb and len(mb.group(1)) > len(ma.group(1)):
+            reind = True
+    if reind:
+        return {'reproduced': std_ok and not x_ok, 'detail': 'text %r: standard doctest tries=%d failures=%d, xdoctest %r' % (text, tries, fails, xs),
+                'signature': 'C20:std-passes-xdoctest-fails:reindented-example'}
+    kind = 'print+value' if ((cex['harness'] == 'rule' and cex['has_value'] and cex['stdout']) or (cex['harness'] == 'diff' and (3 in cex['examples'] or 14 in cex['examples'] or 15 in cex['examples']))) else 'other'
     return {'reproduced': std_ok and not x_ok, 'detail': 'text %r: standard doctest tries=%d failures=%d, xdoctest %r' % (text, tries, fails, xs),
             'signature': 'C20:std-passes-xdoctest-fails:' + kind}
